@@ -107,6 +107,9 @@ def obligations(tier: str):
     for fxn, depths in (("f0", (1, 2, 3)), ("f1s", (1, 2) + ((3,) if T else ())), ("f3", (1, 2, 3)), ("f4", (2, 3))):
         for d in depths:
             add(f"grow_{fxn}_d{d}", fixture=fxn, creator="grow", max_depth=d)
+    for d in (2, 3):
+        add(f"grow_f9_d{d}", fixture="f9", creator="grow", max_depth=d)
+        add(f"pigrow_f9_d{d}", fixture="f9", creator="pi", max_depth=d)
     add("grow_f2lst_d2", fixture="f2", grammar_fn="grammar_lst", classes=["Leaf", "Lst"], creator="grow", max_depth=2)
     add("grow_f5RD_d1", fixture="f5", grammar_fn="g_RD", classes=["RD"], creator="grow", max_depth=1)
     for fxn, depths in (("f0", (1, 2, 3)), ("f1s", (1, 2) + ((3,) if T else ()))):
